@@ -878,6 +878,48 @@ def gen_cli(rng, tier):
     return out
 
 
+def gen_mux_big(rng, tier):
+    """Larger A/V files (40-80 samples per track, tiny frames) with many equal timestamps across the
+    two tracks and every caller alternation pattern: the interleave order at scale (C15, C01)."""
+    vc = rng.choice(['h264', 'h265', 'av1', 'vp9'])
+    ac = rng.choice(['aac', 'opus'])
+    cfg = base_cfg(vc, ac)
+    nv = rng.randrange(35, 70 if tier == 'quick' else 200)
+    na = rng.randrange(35, 90 if tier == 'quick' else 300)
+    vstep = rng.choice([9000, 9000, 9009])
+    vt = [k * vstep for k in range(nv)]
+    astep = rng.choice([vstep, vstep // 2, 6000, 2 * vstep // 3])
+    at = [min(k * astep, vt[-1] + vstep) for k in range(na)]
+    if rng.random() < 0.5:
+        at = sorted(rng.choice(vt) for _ in range(na))        # audio exactly on video timestamps
+    vcalls = [{'op': 'wv', 'pts': fin(t), 'data': video_frame(rng, vc, k == 0, rng.randrange(1, 6)), 'key': k == 0} for k, t in enumerate(vt)]
+    acalls = [{'op': 'wa', 'pts': fin(t), 'data': audio_frame(rng, ac, rng.randrange(1, 6))} for t in at]
+    mode = rng.choice(['time', 'vfirst', 'afirst', 'burst'])
+    calls = [vcalls[0]]
+    vi, ai = 1, 0
+    while vi < nv or ai < na:
+        if vi >= nv:
+            pick = 'a'
+        elif ai >= na:
+            pick = 'v'
+        elif mode == 'vfirst':
+            pick = 'v'
+        elif mode == 'afirst':
+            pick = 'a'
+        elif mode == 'time':
+            pick = 'v' if vt[vi] <= at[ai] else 'a'
+        else:
+            pick = rng.choice(['v', 'v', 'v', 'a', 'a', 'a', 'a'])
+        if pick == 'v':
+            calls.append(vcalls[vi])
+            vi += 1
+        else:
+            calls.append(acalls[ai])
+            ai += 1
+    calls.append({'op': 'fin', 'how': 'in_place_stats'})
+    return {'cfg': cfg, 'calls': calls}
+
+
 def generate(kind, n, seed, tier):
     rng = random.Random((seed * 1000003) ^ hash(kind) & 0xffff if False else seed * 1000003 + sum(map(ord, kind)))
     out = []
@@ -920,6 +962,8 @@ def generate(kind, n, seed, tier):
             out.append(gen_mux(rng, tier))
         elif kind == 'frag':
             out.append(gen_frag(rng, tier))
+        elif kind == 'mux_big':
+            out.append(gen_mux_big(rng, tier))
         elif kind == 'mux_long':
             out.append(gen_mux(rng, tier, long_run=True))
         else:
